@@ -40,6 +40,19 @@ import (
 //             nil, no error is latched), the reader sees a clean end of stream, and every later
 //             send is refused on `closedSend` with `c.err == nil` — the path on which F03 + F04
 //             let Run succeed
+//   readexit0 after the k-th answer it reads m further requests COMPLETELY (m = the 5th argument) and
+//             exits with status 0 without answering them: the runner has handed those requests over
+//             (sendRequest returned nil) and their callbacks are pending when the process is gone
+//             — selected cases that never produce a result.  (The runner notices through its 20 s
+//             response time-out, not through an end of stream: see c04LoopGen; the variant with a
+//             clean end of stream is op "inrun".)
+//   readexit3 the same, exits with status 3
+// A file tamper.json in the scenario's directory (test-name suffix -> kind) makes the proxy DEVIATE on
+// the wire for those cases while it still reports the reference client's (expected) result, so that
+// only the reference server has something to say about them (its feedback lines on stderr):
+//   dup          the request is issued twice (the server: "client sent another request (#2) …")
+//   codec | compression | method   the x-expect-… header the runner added is altered, so that what
+//                the server is told to expect is not what the client does
 // Every answered test name is appended to a log file in the scenario's directory; the op reports
 // it, so that the judge knows which selected cases received a real answer whatever the
 // interleaving of concurrently running batches was.
@@ -93,6 +106,19 @@ func c04Peer(args []string) int {
 		return 4
 	}
 	logPath := filepath.Join(dir, fmt.Sprintf("cli-%d.log", os.Getpid()))
+	tamper := map[string]string{}
+	if data, err := os.ReadFile(filepath.Join(dir, "tamper.json")); err == nil {
+		_ = json.Unmarshal(data, &tamper)
+	}
+	tamperOf := func(testName string) string {
+		best, kind := -1, ""
+		for suffix, k := range tamper {
+			if strings.HasSuffix(testName, "/"+suffix) && len(suffix) > best {
+				best, kind = len(suffix), k
+			}
+		}
+		return kind
+	}
 	in := os.Stdin // unbuffered: never read ahead of the request being served
 	out := cout
 	answered := 0
@@ -107,12 +133,24 @@ func c04Peer(args []string) int {
 			}
 			return 0
 		}
+		kind := tamperOf(req.TestName)
+		c04PeerTamper(&req, kind)
 		if err := internal.WriteDelimitedMessage(cin, &req); err != nil {
 			return 4
 		}
 		var resp conformancev1.ClientCompatResponse
 		if err := internal.ReadDelimitedMessage(out, &resp, "reference client", time.Minute, 16<<20); err != nil {
 			return 4
+		}
+		if kind == "dup" {
+			// the same request once more; its result is dropped
+			if err := internal.WriteDelimitedMessage(cin, &req); err != nil {
+				return 4
+			}
+			var again conformancev1.ClientCompatResponse
+			if err := internal.ReadDelimitedMessage(out, &again, "reference client", time.Minute, 16<<20); err != nil {
+				return 4
+			}
 		}
 		if err := internal.WriteDelimitedMessage(os.Stdout, &resp); err != nil {
 			return 4
@@ -125,6 +163,28 @@ func c04Peer(args []string) int {
 	}
 	child.Process.Kill()
 	child.Wait()
+	if stop == "readexit0" || stop == "readexit3" {
+		m := 1
+		if len(args) > 4 {
+			if v, err := strconv.Atoi(args[4]); err == nil {
+				m = v
+			}
+		}
+		for i := 0; i < m; i++ {
+			var req conformancev1.ClientCompatRequest
+			if err := internal.ReadDelimitedMessage(in, &req, "runner", time.Hour, 16<<20); err != nil {
+				break // nothing more was sent
+			}
+			if f, err := os.OpenFile(logPath, os.O_APPEND|os.O_CREATE|os.O_WRONLY, 0o644); err == nil {
+				f.WriteString("?" + req.TestName + "\n")
+				f.Close()
+			}
+		}
+		if stop == "readexit3" {
+			return 3
+		}
+		return 0
+	}
 	if stop == "blind0" {
 		head := make([]byte, 4+512)
 		if _, err := io.ReadFull(in, head); err != nil {
@@ -163,6 +223,31 @@ func c04Peer(args []string) int {
 	return 0
 }
 
+// c04PeerTamper alters what the reference server is told to expect for this request (the x-expect-…
+// headers the runner added), so that the reference client's perfectly normal request deviates.
+func c04PeerTamper(req *conformancev1.ClientCompatRequest, kind string) {
+	var name, from, to string
+	switch kind {
+	case "codec":
+		name, from, to = "x-expect-codec", "1", "2"
+	case "compression":
+		name, from, to = "x-expect-compression", "1", "2"
+	case "method":
+		name, from, to = "x-expect-http-method", "POST", "GET"
+	default:
+		return
+	}
+	for _, h := range req.RequestHeaders {
+		if strings.EqualFold(h.Name, name) {
+			for i, v := range h.Value {
+				if v == from {
+					h.Value[i] = to
+				}
+			}
+		}
+	}
+}
+
 type c04LoopIn struct {
 	Layout     int      `json:"layout"`
 	MaxServers int      `json:"maxServers"`
@@ -172,6 +257,14 @@ type c04LoopIn struct {
 	// Quiet: run without -v (Flags.Verbose = false, the command line's default): no log lines before
 	// the report, server instances visited in map order.  What is reported must not depend on it.
 	Quiet bool `json:"quiet,omitempty"`
+	// Names: the test names of the cases (default c<i>).  Test names are arbitrary strings: they are
+	// data for everything between the request header and the report, never syntax.
+	Names []string `json:"names,omitempty"`
+	// Tamper[i]: "" | dup | codec | compression | method — the client deviates on the wire for case i
+	// while it reports the expected result (only the reference server notices)
+	Tamper []string `json:"tamper,omitempty"`
+	// Unanswered: stops readexit0 / readexit3 — how many further requests are read but never answered
+	Unanswered int `json:"unanswered,omitempty"`
 }
 
 type c04LoopOut struct {
@@ -181,6 +274,7 @@ type c04LoopOut struct {
 	Invalid     bool       `json:"invalid,omitempty"`
 	Answered    []string   `json:"answered"`
 	Blind       []string   `json:"blind"`
+	Read        []string   `json:"read"`
 	Total       int        `json:"total"`
 	Passed      int        `json:"passed"`
 	Failed      int        `json:"failed"`
@@ -216,6 +310,17 @@ func c04LoopCfg(layout int) string {
 var c04LoopPayload = base64.StdEncoding.EncodeToString(bytes.Repeat([]byte("x"), 120*1024))
 
 func c04LoopSuite(cases []string) (string, []string, []string) {
+	return c04LoopSuiteNamed(cases, nil)
+}
+
+func c04LoopName(names []string, i int) string {
+	if i < len(names) {
+		return names[i]
+	}
+	return fmt.Sprintf("c%d", i)
+}
+
+func c04LoopSuiteNamed(cases []string, names []string) (string, []string, []string) {
 	var sb strings.Builder
 	sb.WriteString("name: V\ntestCases:\n")
 	var failing, flaky []string
@@ -223,8 +328,8 @@ func c04LoopSuite(cases []string) (string, []string, []string) {
 		if len(code) != 2 || (code[0] != 'r' && code[0] != 'w') || (code[1] != 'u' && code[1] != 'f' && code[1] != 'k') {
 			panic("c04: bad run case code " + code)
 		}
-		name := fmt.Sprintf("c%d", i)
-		fmt.Fprintf(&sb, "- request:\n    testName: %s\n    streamType: STREAM_TYPE_UNARY\n    requestMessages:\n    - \"@type\": type.googleapis.com/connectrpc.conformance.v1.UnaryRequest\n      requestData: \"%s\"\n      responseDefinition:\n        responseData: \"dGVzdA==\"\n", name, c04LoopPayload)
+		name := c04LoopName(names, i)
+		fmt.Fprintf(&sb, "- request:\n    testName: %s\n    streamType: STREAM_TYPE_UNARY\n    requestMessages:\n    - \"@type\": type.googleapis.com/connectrpc.conformance.v1.UnaryRequest\n      requestData: \"%s\"\n      responseDefinition:\n        responseData: \"dGVzdA==\"\n", strconv.Quote(name), c04LoopPayload)
 		if code[0] == 'w' {
 			sb.WriteString("  expectedResponse:\n    payloads:\n    - data: \"b3RoZXI=\"\n")
 		}
@@ -238,13 +343,51 @@ func c04LoopSuite(cases []string) (string, []string, []string) {
 	return sb.String(), failing, flaky
 }
 
+// c04NameOK: what the transport between runner, client and reference server can carry as a test name
+// and the judge can tell apart: visible ASCII and blanks (the name travels in an HTTP header value),
+// no blank at either end, no line break; no pattern wildcard (the marking patterns are "V/**/<name>");
+// not the ": " that separates name and message on the reference server's feedback lines (a name
+// holding it cannot be carried by that framing — C12 feedback_line_attributed states the same limit).
+func c04NameOK(n string) bool {
+	if n == "" || strings.HasPrefix(n, " ") || strings.HasSuffix(n, " ") || strings.Contains(n, ": ") ||
+		strings.Contains(n, "*") || strings.HasPrefix(n, "/") || strings.HasSuffix(n, "/") || strings.Contains(n, "//") {
+		return false
+	}
+	for _, r := range n {
+		if r < 0x20 || r > 0x7e {
+			return false
+		}
+	}
+	return true
+}
+
 func c04RunLoop(c *gen.Ctx, in c04LoopIn) c04LoopOut {
 	// inputs mutated by the shrinker / the neighbourhood search may be malformed: not a scenario
 	valid := in.Layout >= 1 && in.Layout <= 3 && in.MaxServers >= 1 && len(in.Cases) > 0
 	switch in.Stop {
-	case "serve", "serve3", "exit0", "exit3", "closeout", "blind0":
+	case "serve", "serve3", "exit0", "exit3", "closeout", "blind0", "readexit0", "readexit3":
 	default:
 		valid = false
+	}
+	if (len(in.Names) != 0 && len(in.Names) != len(in.Cases)) || (len(in.Tamper) != 0 && len(in.Tamper) != len(in.Cases)) || in.Unanswered < 0 {
+		valid = false
+	}
+	for i, n := range in.Names {
+		if !c04NameOK(n) {
+			valid = false
+		}
+		for j, o := range in.Names {
+			if i != j && (n == o || strings.HasSuffix(n, "/"+o)) {
+				valid = false // the judge tells the cases apart by the end of the permutation's name
+			}
+		}
+	}
+	for _, t := range in.Tamper {
+		switch t {
+		case "", "dup", "codec", "compression", "method":
+		default:
+			valid = false
+		}
 	}
 	for _, code := range in.Cases {
 		if len(code) != 2 || (code[0] != 'r' && code[0] != 'w') || (code[1] != 'u' && code[1] != 'f' && code[1] != 'k') {
@@ -254,14 +397,26 @@ func c04RunLoop(c *gen.Ctx, in c04LoopIn) c04LoopOut {
 	if !valid {
 		return c04LoopOut{Invalid: true}
 	}
-	suite, failing, flaky := c04LoopSuite(in.Cases)
+	suite, failing, flaky := c04LoopSuiteNamed(in.Cases, in.Names)
 	cfg := c04LoopCfg(in.Layout)
 	dir := filepath.Join(c.WorkDir, fmt.Sprintf("c04loop-%d-%d", os.Getpid(), c04RunSeq.Add(1)))
 	if err := os.MkdirAll(dir, 0o755); err != nil {
 		panic(err)
 	}
 	defer os.RemoveAll(dir)
-	out := c04LoopOut{Total: -1, Answered: []string{}, Blind: []string{}, FailedNames: []string{}, InfoNames: []string{}}
+	out := c04LoopOut{Total: -1, Answered: []string{}, Blind: []string{}, Read: []string{}, FailedNames: []string{}, InfoNames: []string{}}
+	if len(in.Tamper) != 0 {
+		tm := map[string]string{}
+		for i, t := range in.Tamper {
+			if t != "" {
+				tm[c04LoopName(in.Names, i)] = t
+			}
+		}
+		data, _ := json.Marshal(tm)
+		if err := os.WriteFile(filepath.Join(dir, "tamper.json"), data, 0o644); err != nil {
+			panic(err)
+		}
+	}
 	batches, err := cc.VerifC04Batches(filepath.Join(dir, "suite.yaml"), suite, cfg)
 	if err != nil {
 		out.Err = "load: " + err.Error()
@@ -269,11 +424,14 @@ func c04RunLoop(c *gen.Ctx, in c04LoopIn) c04LoopOut {
 	}
 	out.Batches = batches
 	self, _ := os.Executable()
-	cmd := []string{self, "c04peer", dir, filepath.Join(c.BinDir, "referenceclient"), strconv.Itoa(in.K), in.Stop}
+	cmd := []string{self, "c04peer", dir, filepath.Join(c.BinDir, "referenceclient"), strconv.Itoa(in.K), in.Stop, strconv.Itoa(in.Unanswered)}
 	t0 := time.Now()
-	ok, errText, lines, _ := cc.VerifC04RunLoopFlags(dir, cmd, suite, cfg, failing, flaky, uint(in.MaxServers), !in.Quiet)
+	ok, errText, lines, errLines := cc.VerifC04RunLoopFlags(dir, cmd, suite, cfg, failing, flaky, uint(in.MaxServers), !in.Quiet)
 	if os.Getenv("VERIF_C04_TIMING") != "" {
 		fmt.Fprintf(os.Stderr, "c04 runloop %+v: %.1fs ok=%v\n", in, time.Since(t0).Seconds(), ok)
+	}
+	if os.Getenv("VERIF_C04_DEBUG") != "" {
+		fmt.Fprintf(os.Stderr, "c04 runloop err=%q\nlog: %q\nstderr: %q\n", errText, lines, errLines)
 	}
 	out.OK, out.Err = ok, errText
 	atoi := func(s string) int { v, _ := strconv.Atoi(s); return v }
@@ -301,6 +459,10 @@ func c04RunLoop(c *gen.Ctx, in c04LoopIn) c04LoopOut {
 	for _, l := range logs {
 		data, _ := os.ReadFile(l)
 		for _, n := range strings.Split(string(data), "\n") {
+			if strings.HasPrefix(n, "?") {
+				out.Read = append(out.Read, n[1:])
+				continue
+			}
 			if strings.HasPrefix(n, "!") {
 				n = n[1:]
 				out.Blind = append(out.Blind, n)
@@ -312,6 +474,7 @@ func c04RunLoop(c *gen.Ctx, in c04LoopIn) c04LoopOut {
 	}
 	sort.Strings(out.Answered)
 	sort.Strings(out.Blind)
+	sort.Strings(out.Read)
 	sort.Strings(out.FailedNames)
 	sort.Strings(out.InfoNames)
 	return out
@@ -391,6 +554,100 @@ func c04LoopGen(c *gen.Ctx) {
 	}
 	addQuiet(1, 1, []string{"ru"}, 0, "exit0")
 	addQuiet(3, 2, []string{"ru", "wu", "rf"}, 2, "exit3")
+	// --- requests that were handed over and never answered, the client exiting with status 0 -------
+	// (readexit0: after k answers the client reads m further requests and exits with status 0): the
+	// unanswered cases must not be excused whatever their marking.
+	addX := func(in c04LoopIn) {
+		ins = append(ins, in)
+		tag := in.Stop
+		if len(in.Tamper) != 0 {
+			tag = "feedback:" + tag
+		}
+		if len(in.Names) != 0 {
+			tag += ":odd-names"
+		}
+		c.E.Count("runloop:" + tag)
+	}
+	// With a client PROCESS the reader does not see that end of stream: the copier goroutine that feeds
+	// the process's stdin keeps exec.Cmd.Wait (and with it the closing of the runner's side of stdout)
+	// from returning; the 20 s response time-out fires instead and the run fails with an error.  The
+	// clean variant is op "inrun"; here one scenario at the end of the run and one in its middle
+	// (each waits for the time-out, in parallel with "closeout"), 16 more per seed in the thorough tier.
+	allMarked := []string{"rk", "wf", "rk"} // whichever case is left unanswered, it is marked
+	addX(c04LoopIn{Layout: 1, MaxServers: 1, Cases: allMarked, K: 2, Stop: "readexit0", Unanswered: 1, Quiet: r.Bool()})
+	addX(c04LoopIn{Layout: 2, MaxServers: 1, Cases: allMarked, K: r.Range(0, 3), Stop: gen.Pick(r, []string{"readexit0", "readexit3"}), Unanswered: 1})
+	if c.Thorough() {
+		for i := 0; i < 16; i++ {
+			layout := r.Range(1, 3)
+			cs := make([]string, r.Range(1, 4))
+			for j := range cs {
+				cs[j] = gen.Pick(r, []string{"rk", "wf", "rk", "wf", "ru", "rf", "wk"})
+			}
+			n := len(cs) * layout
+			m := r.Range(1, 3)
+			k := r.Range(0, n)
+			if r.Chance(2, 3) && n >= m {
+				k = n - m // the unanswered requests are the last ones
+			}
+			addX(c04LoopIn{Layout: layout, MaxServers: gen.Pick(r, []int{1, 2, 4}), Cases: cs, K: k,
+				Stop: gen.Pick(r, []string{"readexit0", "readexit0", "readexit3"}), Unanswered: m, Quiet: r.Bool()})
+		}
+	}
+	// --- feedback of the REAL reference server, end to end ---------------------------------------
+	// The client deviates on the wire (request issued twice, or not what the x-expect-… headers
+	// announce) and reports the expected result: only the in-process reference server notices; its
+	// complaint travels as a "<test name>: <message>" line over its stderr to the batch runner and
+	// into the report.  Test names are arbitrary strings (a --test-file may call a case anything):
+	// names that mean something to a formatter, to a "name: message" reader, to a URL or a shell are
+	// data on every hop.
+	oddClasses := [][]string{
+		{"50%off", "100%", "%s", "%d%%", "%v-%s", "%!v(MISSING)", "%[1]s", "%+q", "50% off", "%", "%%", "%x%x%x%n"}, // format verbs
+		{"q:x", "x :y", "a:b:c", ":lead", "trail:", "http://h:1/p"},                                              // the feedback line's own separator characters
+		{"a b", "two  blanks", "spaced out name", "(x)"},                                   // blanks
+		{"grp/50%", "a/b/c", "x/%s", "deep/er/na:me"},                                                             // further path components
+		{"n=1&m=2", "$HOME", "`id`", "a;b", "<x>", "\"quoted\"", "back\\slash", "{a,b}", "[1]", "~", "#c", "?q", "!bang", "'s'"},
+	}
+	tampers := []string{"dup", "codec", "compression", "method"}
+	fbScenario := func(i int) c04LoopIn {
+		n := r.Range(2, 3)
+		in := c04LoopIn{Layout: gen.Pick(r, []int{1, 1, 1, 2}), MaxServers: gen.Pick(r, []int{1, 4}), K: -1, Stop: "serve", Quiet: r.Bool()}
+		for j := 0; j < n; j++ {
+			cl := oddClasses[(i+j)%len(oddClasses)]
+			name := ""
+			for !c04NameOK(name) {
+				name = fmt.Sprintf("n%d-", j) + gen.Pick(r, cl)
+				if r.Chance(1, 4) {
+					name = gen.Pick(r, cl) + fmt.Sprintf("/n%d", j)
+				}
+			}
+			in.Names = append(in.Names, name)
+			in.Cases = append(in.Cases, gen.Pick(r, []string{"ru", "ru", "ru", "rf", "rk", "wf"}))
+			t := ""
+			if j == 0 || r.Chance(1, 2) {
+				t = tampers[(i+j)%len(tampers)]
+			}
+			in.Tamper = append(in.Tamper, t)
+		}
+		return in
+	}
+	nFb := len(oddClasses) + 2
+	if c.Thorough() {
+		nFb = 80
+	}
+	for i := 0; i < nFb; i++ {
+		in := fbScenario(i)
+		if !c.Thorough() && i < len(oddClasses) {
+			// quick: every class of name once on an unmarked, otherwise passing case
+			in.Cases[0] = "ru"
+		}
+		addX(in)
+	}
+	// the same with ordinary names; feedback on a known-failing case that otherwise passes makes it
+	// the expected failure (the run succeeds); a client that stops early after a deviating request
+	addX(c04LoopIn{Layout: 1, MaxServers: 1, Cases: []string{"ru", "ru", "rk"}, Tamper: []string{"", gen.Pick(r, tampers), ""}, K: -1, Stop: "serve"})
+	addX(c04LoopIn{Layout: 2, MaxServers: 4, Cases: []string{"rf", "ru"}, Tamper: []string{gen.Pick(r, tampers), ""}, K: -1, Stop: "serve", Quiet: true})
+	addX(c04LoopIn{Layout: 1, MaxServers: 1, Cases: []string{"rf", "rk"}, Names: []string{"n0-100%", "n1-%d"}, Tamper: []string{"dup", "method"}, K: -1, Stop: "serve"})
+	addX(c04LoopIn{Layout: 1, MaxServers: 1, Cases: []string{"ru", "ru", "ru"}, Names: []string{"n0-%s", "n1-a b", "n2-q:x"}, Tamper: []string{"codec", "codec", "codec"}, K: 2, Stop: "exit0"})
 	nRand := 6
 	if c.Thorough() {
 		nRand = 120
